@@ -245,6 +245,44 @@ def check(tier: str) -> Result:
         ok = parts == sorted(["len(Face)", "self.cube_size // 2", "len(CubeMovementAmount)"]) and (not mn or ast.unparse(mn[0]) == "0")
         why = f"maxval factors {parts}, minval {ast.unparse(mn[0]) if mn else 'default'}"
     res.add("C17.R1", gm.loc(), "rubiks_cube.generator.generate_actions_for_scramble", "scramble actions are drawn from [0, |Face| * (n//2) * |Amount|)", ok, why)
+    # ---- R1: RubiksCube.step flattens the action with the cube size of the environment
+    cenv = [c for c in tree.environment_classes() if c.name == "RubiksCube"]
+    if not cenv:
+        raise AnalysisError("RubiksCube environment not found")
+    ea = analyse_env(tree, cenv[0])
+    vfg = ea.vfg
+    N = vfg.mk_attr(vfg.mk_attr(ea.self_t, "generator"), "cube_size")
+    A_ = len(amounts)
+    face, depth, amount = (vfg.mk_proj(ea.action, i, 3) for i in range(3))
+    sw = [n_ for n_ in deps(ea.step_result) if ext_name(n_) == "jax.lax.switch" or (n_.kind == "choice" and n_.args[0] == "switch")]
+    idx = None
+    for n_ in sw:
+        idx = n_.args[1][0] if n_.kind == "call" else n_.args[1]
+        break
+    ok = False
+    why = "no lax.switch over the move list found in step"
+    if idx is not None:
+        from ..normal import strip_cast as _sc
+        # expected: face * |A| * (N // 2) + depth * |A| + amount   (any association / order of the products)
+        def factors(t):
+            t = _sc(t)
+            if t.kind == "bin" and t.args[0] == "*":
+                return factors(t.args[1]) + factors(t.args[2])
+            return [t]
+        def terms(t):
+            t = _sc(t)
+            if t.kind == "bin" and t.args[0] == "+":
+                return terms(t.args[1]) + terms(t.args[2])
+            return [t]
+        half_ = mk("bin", "//", N, mk("const", 2))
+        got = sorted(sorted(x.id for x in factors(tm_)) for tm_ in terms(idx))
+        want = sorted([sorted([face.id, mk("const", A_).id, half_.id]), sorted([depth.id, mk("const", A_).id]), [amount.id]])
+        ok = got == want
+        why = f"switch index {txt(idx, 6, 160)}; expected face*{A_}*(generator.cube_size//2) + depth*{A_} + amount"
+        if not ok and any(x.kind == "bin" and x.args[0] == "//" and _sc(x.args[1]).kind == "const" for tm_ in terms(idx) for x in factors(tm_)):
+            why += " -- a constant cube size is used instead of the environment's"
+    site_s, fn_s = (tree.find_method(cenv[0], "step").loc(), "rubiks_cube.env.RubiksCube.step")
+    res.add("C17.R1", site_s, fn_s, "step selects move flatten_action(action, cube_size of this environment)", ok, why)
     # ---- R5 sliding tile
     sliding_obligations(res, tree)
     res.analysed = {"cube_sizes": list(sizes), "moves_evaluated": n_moves, "sticker_positions_max": 6 * max(sizes) ** 2}
